@@ -95,17 +95,8 @@ func checkC03(p *Prog, l *Ledger) {
 		"own-hit":  q("maplookup(e.Values, name) ; has(e.Values[name])→true ; return(e.Values[name], nil)"),
 		"own-miss": q("maplookup(e.Values, name) ; has(e.Values[name])→false ; return(nil, ") + `(Errorf|New)\(.*\)\)`,
 	})
-	matchWords(p, l, "C03/S1-environment-shape", "Environment.Get", p.Func(env+"Get"), map[string]string{
-		"own-hit":       q("maplookup(e.Values, name) ; has(e.Values[name])→true ; return(e.Values[name], nil)"),
-		"parent-hit":    q("maplookup(e.Values, name) ; has(e.Values[name])→false ; niltest(e.Parent)→nonnil ; get(e.Parent, name)→found ; return(") + `get@\S+\.val, nil\)`,
-		"parent-miss":   q("maplookup(e.Values, name) ; has(e.Values[name])→false ; niltest(e.Parent)→nonnil ; get(e.Parent, name)→absent ; return(nil, ") + `get@\S+\.err\)`,
-		"global-miss":   q("maplookup(e.Values, name) ; has(e.Values[name])→false ; niltest(e.Parent)→nil ; return(nil, ") + `(Errorf|New)\(.*\)\)`,
-	})
-	matchWords(p, l, "C03/S1-environment-shape", "Environment.Assign", p.Func(env+"Assign"), map[string]string{
-		"own-hit":     q("maplookup(e.Values, name.Lexeme) ; has(e.Values[name.Lexeme])→true ; mapstore(e.Values, name.Lexeme, value) ; return()"),
-		"parent":      q("maplookup(e.Values, name.Lexeme) ; has(e.Values[name.Lexeme])→false ; niltest(e.Parent)→nonnil ; assign(e.Parent, name, value)→") + `(ok|undefined)` + q(" ; return()"),
-		"global-miss": q("maplookup(e.Values, name.Lexeme) ; has(e.Values[name.Lexeme])→false ; niltest(e.Parent)→nil ; rterror(name, ") + `.*\)` + q(" ; return()"),
-	})
+	checkEnvWalk(p, l, "Get", p.Func(env+"Get"))
+	checkEnvWalk(p, l, "Assign", p.Func(env+"Assign"))
 	checkEnvConstructors(p, l)
 	checkScopeWiring(cs, l)
 	checkClosureWiring(cs, l, "C03/S2-scope-wiring")
@@ -269,5 +260,157 @@ func checkNoDynamicScoping(p *Prog, l *Ledger) {
 				l.Violate(rule, fk+"#store(Function."+f+")", p.InstrPos(in), "a function value's declaration/closure is rewritten after creation")
 			}
 		})
+	}
+}
+
+
+// checkEnvWalk: Get / Assign are the decision list "own table has the key → use it; else parent non-nil → the
+// same operation on exactly the parent; else error" — accepted in recursive form (a call of the same method on
+// e.Parent) and in iterative form (a loop advancing along Parent); the walk is checked for the first three levels.
+func checkEnvWalk(p *Prog, l *Ledger, which string, fn *ssa.Function) {
+	rule := "C03/S1-environment-shape"
+	construct := "Environment." + which
+	if fn == nil {
+		l.Undecide(rule, construct, "", "method not found")
+		return
+	}
+	m := NewInterpModel(p, construct)
+	params := []AV{Sym("e"), Sym("name")}
+	key := "name"
+	if which == "Assign" {
+		params = append(params, Sym("value"))
+		key = "name.Lexeme"
+	}
+	mc := m.Explore(fn, params, nil)
+	l.States += mc.States
+	l.Funcs[p.FuncKey(fn)] = true
+	if len(m.Undecided) > 0 {
+		l.Undecide(rule, construct, p.Pos(fn.Pos()), strings.Join(m.Undecided, "; "))
+		return
+	}
+	op := "get"
+	if which == "Assign" {
+		op = "assign"
+	}
+	const maxDepth = 3
+	mon := Monitor{Init: "at|e|0", Also: map[string]bool{"has": true, "maplookup": true}, Step: func(s string, ev *Event) string {
+		ps := strings.Split(s, "|")
+		cur := ps[1]
+		var depth int
+		fmt.Sscan(ps[2], &depth)
+		if depth >= maxDepth {
+			return "" // deeper levels repeat the same loop body
+		}
+		switch ps[0] {
+		case "at":
+			switch ev.Op {
+			case "maplookup":
+				if ev.Args[0] != cur+".Values" || ev.Args[1] != key {
+					return "!the lookup is " + ev.String() + ", expected the table of scope " + cur + " under the given name"
+				}
+				return "looked|" + cur + "|" + ps[2]
+			case "backedge":
+				return s
+			}
+			return "!expected the scope's own table to be consulted first, found " + ev.String()
+		case "looked":
+			if ev.Op == "has" {
+				if ev.Out == "true" {
+					return "hit|" + cur + "|" + ps[2]
+				}
+				return "miss|" + cur + "|" + ps[2]
+			}
+			return "!unexpected " + ev.String() + " after the table lookup"
+		case "hit":
+			switch ev.Op {
+			case "mapstore":
+				if which != "Assign" || ev.Args[0] != cur+".Values" || ev.Args[1] != key || ev.Args[2] != "value" {
+					return "!" + ev.String() + ": an existing binding must be updated in the scope that holds it, under its own name, with the given value"
+				}
+				return "stored|" + cur + "|" + ps[2]
+			case "return":
+				if which == "Assign" {
+					return "!Assign finds the binding but returns without updating it"
+				}
+				if ev.KV["r0"] != cur+".Values["+key+"]" || ev.KV["r1"] != "nil" {
+					return "!a found binding must be returned as is: " + ev.String()
+				}
+				return ""
+			}
+			return "!unexpected " + ev.String() + " after finding the binding"
+		case "stored":
+			if ev.Op == "return" {
+				return ""
+			}
+			return "!unexpected " + ev.String() + " after updating the binding"
+		case "miss":
+			if ev.Op == "niltest" {
+				if ev.Args[0] != cur+".Parent" {
+					return "!after a miss in " + cur + " the walk tests " + ev.Args[0] + " instead of " + cur + ".Parent"
+				}
+				if ev.Out == "nil" {
+					return "end|" + cur + "|" + ps[2]
+				}
+				return "up|" + cur + "|" + ps[2]
+			}
+			if ev.Op == "mapstore" {
+				return "!a binding is created/updated in a scope that does not hold the name (" + ev.String() + ")"
+			}
+			return "!after a miss the enclosing scope must be tested next, found " + ev.String()
+		case "up":
+			switch ev.Op {
+			case op: // recursive form
+				if ev.Args[0] != cur+".Parent" || ev.Args[1] != "name" || (which == "Assign" && ev.Args[2] != "value") {
+					return "!the recursion is " + ev.String() + ", expected the same operation on exactly " + cur + ".Parent with the same arguments"
+				}
+				return "rec|" + ev.Out + "|" + ps[2]
+			case "backedge":
+				return s
+			case "maplookup": // iterative form: next level
+				next := cur + ".Parent"
+				if ev.Args[0] != next+".Values" || ev.Args[1] != key {
+					return "!the walk continues with " + ev.String() + " instead of the table of " + next
+				}
+				return fmt.Sprintf("looked|%s|%d", next, depth+1)
+			}
+			return "!with an enclosing scope present the walk must continue there, found " + ev.String()
+		case "rec":
+			if ev.Op == "return" {
+				if which == "Get" {
+					okRet := (ps[1] == "found" && strings.HasSuffix(ev.KV["r0"], ".val") && ev.KV["r1"] == "nil") || (ps[1] == "absent" && ev.KV["r0"] == "nil" && strings.HasSuffix(ev.KV["r1"], ".err"))
+					if !okRet {
+						return "!the enclosing scope's answer is not passed on unchanged: " + ev.String()
+					}
+				}
+				return ""
+			}
+			return "!unexpected " + ev.String() + " after delegating to the enclosing scope"
+		case "end":
+			switch ev.Op {
+			case "rterror":
+				if which != "Assign" {
+					return "!Get reports a runtime error itself"
+				}
+				return "reported|" + cur + "|" + ps[2]
+			case "return":
+				if which == "Assign" {
+					return "!assigning an undefined name is not reported"
+				}
+				if ev.KV["r0"] != "nil" || ev.KV["r1"] == "nil" {
+					return "!an undefined name must yield (nil, error): " + ev.String()
+				}
+				return ""
+			}
+			return "!unexpected " + ev.String() + " at the outermost scope"
+		case "reported":
+			if ev.Op == "return" {
+				return ""
+			}
+		}
+		return s
+	}}
+	runMon(l, rule, construct, m, mon, "own table → else exactly the parent (recursively or by a loop along Parent) → else error; checked for the first three scope levels")
+	if len(m.G.Events("maplookup")) == 0 {
+		l.Violate(rule+"/vacuity", construct, "", "no table lookup in "+which)
 	}
 }
